@@ -54,3 +54,35 @@ Definition tir_case (E : cenv) (cb : callback) : list Z :=
               end)
       end
   end.
+
+(* C06: 1 = accepted and cfg_ok, 4 = accepted, structurally ok, no common return type, 0 = accepted but check fails, 2 = rejected, 3 = panic *)
+From QV Require Import model.CfgCheck.
+Definition cfg_case (E : cenv) (cb : callback) : Z :=
+  let b := build_callback E cb in
+  match bu_panic b, bu_code b with
+  | Some _, _ => 3
+  | None, None => 2
+  | None, Some c =>
+      if cfg_ok c (bu_exempt b) then 1
+      else match resolve_return_type E c with
+           | None =>
+               (* not a value-returning body: no common return type, so it is rejected as a property binding and its values
+                  are discarded as a callback; only the structural clauses apply *)
+               let blocks := c_blocks c in
+               let r := reach_candidate blocks in
+               let have := (seq 0 (c_nparams c) ++ bu_exempt b)%list in
+               if reach_ok blocks r && ins_ok blocks r have (in_candidate blocks have) then 4 else 0
+           | Some _ => 0
+           end
+  end.
+(* which part of cfg_ok fails: (reach_ok, ins_ok, returns_consistent) *)
+Definition cfg_detail (E : cenv) (cb : callback) : list bool :=
+  let b := build_callback E cb in
+  match bu_code b with
+  | None => []
+  | Some c =>
+      let blocks := c_blocks c in
+      let r := reach_candidate blocks in
+      let have := (seq 0 (c_nparams c) ++ bu_exempt b)%list in
+      [reach_ok blocks r; ins_ok blocks r have (in_candidate blocks have); returns_consistent blocks r]
+  end.
